@@ -133,6 +133,13 @@ def check_program(ctx, name, prog, vm='mbuff', helpers=(), props=('C04',), extra
                 if r0 == 'unknown': pr.out['inconclusive'].append(f'{name}: path pairing'); continue
                 covered.append(And(*cs.pc) if cs.pc else BoolVal(True))
                 rv = cs.block[1]
+                if not getattr(ctx, 'validated_' + name, False):
+                    setattr(ctx, 'validated_' + name, True)
+                    # an access through a register loaded from input data has an input-dependent *address*: the model's region addresses are not the native ones
+                    k_v = spec.classify(inst[0])[0] if inst else None
+                    data_addr = inst is not None and ((k_v == 'ldx' and inst[2] != 10) or (k_v in ('st', 'stx', 'xadd') and inst[1] != 10))
+                    import validate
+                    if not data_addr: validate.validate(pr, ctx.drv, name, S, both, {'interp': v, 'cranelift': rv}, prog, vm, helpers, None)
                 rr, m = pr.prove(f'{name}:result', both, rv == v, sample=f'{name} ({vm}): CLIF return value = interpreter Ok(v) for all inputs')
                 if rr == 'sat': cand('result', 'returned value differs from the interpreter', m, dict(got=rv, want=v))
                 rr, m = pr.prove(f'{name}:buffers', both + [in_bufs], Select(cs.mem, a_sym) == Select(ip_.st.mem, a_sym), sample=f'{name}: packet and metadata bytes after = interpreter')
@@ -208,6 +215,12 @@ def run_items(items, props, timeout_ms):
     for r in res:
         o = r['out']
         for k in ('obligations', 'discharged', 'solver_s', 'witnesses', 'twins', 'programs'): out[k] += o.get(k, 0)
+        if o.get('validation'):
+            x = out.setdefault('validation', dict(instances=0, agree=0, skipped=0))
+            for k in x: x[k] += o['validation'].get(k, 0)
+        if o.get('xcheck'):
+            x = out.setdefault('xcheck', dict(exported=0, agree=0, unknown=0, disagree=0))
+            for k in x: x[k] += o['xcheck'].get(k, 0)
         for k in ('inconclusive', 'nontrivial', 'errors'): out[k] += o.get(k, [])
         out['samples'] += o.get('samples', [])[:2]; out['functions'].update(o.get('functions', {}))
         for s in o.get('stubs', []):
